@@ -575,6 +575,15 @@ fn top_kind(d: &Desc) -> &'static str {
     }
 }
 
+/// Number of items of the first FlexVec found in the value (0 if there is none).
+fn flex_items(v: &Value) -> usize {
+    match v {
+        Value::Flex(items) => items.len(),
+        Value::Struct(f) | Value::Enum(_, f) | Value::Array(f) | Value::Vec(f) => f.iter().map(flex_items).max().unwrap_or(0),
+        _ => 0,
+    }
+}
+
 fn elem_size(d: &Desc) -> usize {
     match d {
         Desc::Vec { elem, .. } => elem.size().max(1),
@@ -627,7 +636,10 @@ impl Engine for Hist {
         let min = d.min_size();
         let es = elem_size(&d);
         // buffer lengths: each single length from MIN_SIZE up to room for a few elements / items
-        let span = if thorough { (3 * es + a).min(32) } else { (2 * es + a).min(20) };
+        // a FlexVec needs room for three items, one of them larger than the minimum: pop / truncate locate the last kept
+        // slot behind items that may have been edited in place (S144)
+        let items = if top_kind(&d) == "flex" { 1 } else { 0 };
+        let span = if thorough { ((3 + items) * es + a).min(32) } else { ((2 + items) * es + a).min(20) };
         let mut lens: Vec<usize> = (min..=min + span).collect();
         if !thorough {
             // quick: every length in the first alignment period, then aligned steps only
@@ -646,6 +658,22 @@ impl Engine for Hist {
         let seal_boundary = id == "flex(vec(u8,u8),u8)";
         if seal_boundary {
             configs.push((300, false));
+        }
+        if format!("{:?}", d).contains("Flex") {
+            // one buffer that holds three items none of which is the smallest (see the initial states below)
+            let roomy = min + 64;
+            let vals = enum_values(&d, roomy, &Limits { flex_len: 3, max_values: 96, ..Limits::quick() });
+            let most = vals.iter().map(flex_items).max().unwrap_or(0);
+            if most >= 3 {
+                if let Some(v) = vals.iter().filter(|v| flex_items(v) == most).last() {
+                    if let Ok(img) = encode(&d, v, roomy, 0) {
+                        let n3 = refmodel::ceil(img.extent, a.max(1));
+                        if !configs.iter().any(|(n, _)| *n == n3) {
+                            configs.push((n3, false));
+                        }
+                    }
+                }
+            }
         }
         for (n, clamp) in configs {
             // initial states: default_in_place on two fills, plus the smallest and largest fitting value
@@ -699,6 +727,22 @@ impl Engine for Hist {
                             if taken == 2 {
                                 break;
                             }
+                        }
+                    }
+                }
+            }
+            if !clamp && format!("{:?}", d).contains("Flex") {
+                // histories that first build three items and then edit the front one lie beyond the transition cap of the
+                // larger buffers: start from such values as well (most items, then the first and the last in value order —
+                // the last has the largest front item), so that "shrink a sealed item, then pop / truncate" is two steps away
+                let vals = enum_values(&d, n, &Limits { flex_len: 3, max_values: 96, ..Limits::quick() });
+                let most = vals.iter().map(flex_items).max().unwrap_or(0);
+                if most >= 3 {
+                    let with: Vec<&Value> = vals.iter().filter(|v| flex_items(v) == most).collect();
+                    for v in [with.first(), with.last()].into_iter().flatten() {
+                        let mut buf = harness_aligned(n, 0xEE);
+                        if let Ok(Ok(_)) = catch(|| s.new_in_place(buf.as_mut(), v, Kind::Iter).map(|_| ())) {
+                            inits.push(buf.as_ref().to_vec());
                         }
                     }
                 }
